@@ -143,7 +143,15 @@ def gen_request(ch, cfg, v1):
 
 def run_one(ch, cfg):
     v1 = ch.draw(5, "mode.v1") == 1
-    w = World(ch, v1=v1)
+    arm = {}
+
+    def fault_fn(idx, apdu):
+        if arm.get("at") == idx:
+            arm["fired"] = arm["kind"]
+            return arm["kind"]
+        return None
+    w = World(ch, v1=v1, fault_fn=fault_fn)
+    w.arm = arm
     viol = []
     w.bring_up()
     # history: one manager lifetime serves 1..3 signing requests; each is judged on its own
@@ -170,7 +178,19 @@ def _one_request(w, ch, cfg, v1, viol):
     dev.expect = exp
     dev.sign = None
     n_before = len(dev.apdus)
+    # one request in six meets a link fault at one of its exchanges (at most one per lifetime): the
+    # device is still never handed other bytes than the client's, success only if it reported it
+    arm = w.arm
+    arm.pop("fired", None)
+    arm.pop("at", None)
+    if ch.draw(6, "link-fault") == 1 and not arm.get("used"):
+        arm["used"] = True
+        arm["at"] = w.link.index + ch.draw(30, "link-fault.at")
+        arm["kind"] = ["timeout_after", "timeout_before", "read_err_after", "read_err_before",
+                       "write_err"][ch.draw(5, "link-fault.kind")]
     rep, exc = w.request(req)
+    fired = arm.get("fired")
+    arm.pop("at", None)
     viol.extend(dev.violations)
     del dev.violations[:]
     st = dev.sign
@@ -200,7 +220,14 @@ def _one_request(w, ch, cfg, v1, viol):
     else:
         code = rep["errorcode"]
         should_succeed = complete and r_hex is not None
-        if should_succeed:
+        if fired:
+            errc = -2 if v1 else -905
+            if code == 0 and not should_succeed:
+                viol.append(("reply/false-success", "link fault %s, errorcode=0 although the device did "
+                             "not consume every part and report success" % fired))
+            elif code not in (0, errc):
+                viol.append(("reply/code-after-link-fault", "link fault %s -> errorcode %d" % (fired, code)))
+        elif should_succeed:
             if code != 0:
                 viol.append(("reply/not-success", "device consumed everything and answered "
                              "SUCCESS (%s DER) but errorcode=%d" % (shape, code)))
